@@ -83,6 +83,13 @@ def step (st : St) (ws : List String) : St × String :=
       let m := (Builder.mk (natOf id) (notify = "1") (natOf ec) (natOf qf) (natOf bf) q b).build
       (st, joinSp [idx, hexOfBytes m.toVec])
     | _, _ => (st, idx ++ " bad-op")
+  | ["bodyfmt", idx, which, id, q, _value, body] =>
+    -- the builder's serialising body setters: format code of the setter, the serialised value as body
+    match bytesOfHex q, bytesOfHex body with
+    | some q, some body =>
+      let bf := if which = "utf8" then 3 else if which = "json" then 2 else 1
+      (st, joinSp [idx, hexOfBytes (Builder.mk (natOf id) false 0 1 bf q body).build.toVec])
+    | _, _ => (st, idx ++ " bad-op")
   | ["sink", idx] =>
     -- everything written to one persistent sink since the last `sink`: the frames, in order, nothing else
     let all := st.frames.reverse.flatten
@@ -141,12 +148,24 @@ def step (st : St) (ws : List String) : St × String :=
         match (tok.drop 1).toString.splitOn ":" with
         | [k, h] => (bytesOfHex h).map fun b => (some (natOf k), b)
         | _ => none
+      else if tok.startsWith "e" && tok.contains (':' : Char) then
+        -- `e<k>.<Kind>:<hex>`: the stream answers one read() at offset k with that io::ErrorKind.  The blocking readers retry
+        -- `Interrupted` (the helper behaves like Read::read_exact since fix 0713bc8): the stream is read as if nothing had
+        -- happened; every other kind, and every kind for the async readers, ends the read with an I/O error
+        match (tok.drop 1).toString.splitOn ":" with
+        | [spec, h] =>
+          match spec.splitOn ".", bytesOfHex h with
+          | [k, kd], some b =>
+            if kd = "Interrupted" && (kind = "0" || kind = "1") then some (none, b)
+            else some (some (natOf k + 1000000000), b)
+          | _, _ => none
+        | _ => none
       else (bytesOfHex tok).map fun b => (none, b)
     match reader, streams.mapM parse1 with
     | some rd, some ss =>
       (st, idx ++ " " ++ " | ".intercalate (ss.map fun (pk, b) =>
         match pk with
-        | some k => readAll rd (b.take k) "panicked"
+        | some k => if k ≥ 1000000000 then readAll rd (b.take (k - 1000000000)) else readAll rd (b.take k) "panicked"
         | none => readAll rd b))
     | _, _ => (st, idx ++ " bad-op")
   | "net" :: idx :: _ep :: _h :: _pre =>
